@@ -87,6 +87,14 @@ def cases(tier, seed):
                                       '$string(?)', '$substringBefore(?, "-")', '($p := $substringAfter(?, "-"); $p)', '$join(?, ?)', '5(?)', 'nothing(?)', '"s"(?)'],
                                      ['()', '(1)', '("hello-world")', '(1, 2)', '("ab-cd", 1)', '(["a","b"], "+")', '(1,2,3,4)']):
         add('%s%s' % (f, call), doc, ('partial',))
+    # a partial application captures the context item of the place where it is DEFINED (its bound arguments are evaluated
+    # there); calling it under another context item (call syntax, ~>, $map, bare ~>) must not change that
+    d2 = {'rate': 10, 'sep': '-', 'a': 'ctx-a', 'items': [{'qty': 2, 'rate': 100, 'sep': '+', 's': 'ab-cd+ef', 'a': 'item-a'}, {'qty': 3, 'rate': 1000, 'sep': 'c', 's': 'gh-ij+kl', 'a': 'item-b'}]}
+    defs = ['$p := $power(?, rate)', '$p := $substringAfter(?, sep)', '$p := $substringBefore(?, sep)', '$p := function($x, $y){[$x, $y]}(?, a)', '$p := $append(?, rate)', '$p := $pad(?, rate, sep)', '$p := $join(?, sep)', '$p := $string(?) ~> $append(a)']
+    uses = ['items.$p(qty)', 'items.$p(s)', 'items.(qty ~> $p())', 'items.(s ~> $p)', '$map(items.s, $p)', 'items.($q := $p; $q(s))', '[items.$p(s), $p("x-y+z")]', '[$p("x-y+z"), items.$p(s), $p("x-y+z")]', 'items[0].$p([s])', 'items.qty.$p($)']
+    for df, us in itertools.product(defs, uses):
+        add('(%s; %s)' % (df, us), d2, ('partial', 'partial-context'))
+        add('items[1].(%s; $$.%s)' % (df, us), d2, ('partial', 'partial-context'))
     add('$type($substring(?, 1))', doc, ('partial',)); add('list.$substringBefore(?, "-")(s)', doc, ('partial',))
     # chaining
     chain_l = ['4', '"hello-world"', '[1,2,3]', 'n', 'nothing', '$sum', '$uppercase']
